@@ -276,3 +276,8 @@ Definition last_pull_offered (tr : list rev) : bool :=
                          | _ => ok end) tr true.
 Definition obs_no_request_stranded (tr : list rev) : bool :=
   negb (live_replier tr) || last_pull_offered tr.
+
+(** C16 read for request/reply: when the router's future completes, every reply it handed to a
+    requestor's sink has been flushed to it (unless that sink failed) *)
+Definition obs_rr_flushed_at_completion (tr : list rev) : bool :=
+  negb (rcompleted tr) || forallb (fun l => sink_errored l tr || negb (obs_dirty_r l tr)) (client_labels tr).
